@@ -35,8 +35,9 @@ CLAIMED = {
             "Coq proof (ScratchDB wrapped-store invariance through every D-level function) + vm_compute correspondence with every abort point / failing commit write", "5/C05", ""),
     "C07": ("Theorems: on a sub-store every read gives the same result as on the complete store or a Missing* error naming a hash absent here "
             "and present there; reports are truthful (hash absent, correct root/key, prefix = exact nibble path to the reference); a failed "
-            "set/delete leaves the whole state untouched (for the real hash; counterexample for a degenerate H machine-checked). Retry "
-            "convergence is checked by the harness loop only.",
+            "set/delete leaves the whole state untouched (for the real hash; counterexample for a degenerate H machine-checked); the retry "
+            "loop for get/traverse converges to the complete-store result asking only for missing path nodes, each once (C07_retry_get). "
+            "Retry for set/delete is checked by the harness loop only.",
             "Coq proof + vm_compute correspondence over every single-node and random-subset removal", "5/C07", ""),
     "C08": ("Theorems (tree level, every canonical trie, every path): blank iff no key below; the node at a path is the canonical sub-trie; what "
             "a caller sees (incl. simulated nodes) is the annotation of THE canonical node for the keys below; partial-path fields; "
